@@ -53,6 +53,12 @@ CHECKS = {
  "C18": ("Coq proof about the model (one carrier per sub-stream, one task per carrier, join expansion for every length, resolvability) + T1 conformance of NewTask / createTasks + T2 join branch of formatCommand + T3 sub-streams of length 0 .. buffer+3",
          "The executable model's join branch is proved to expand to the members in order with the separator, and is tied to the code by T2 on Task.Command and by T3 runs whose output concatenates the members through the expanded placeholder; audit Upstream keys are checked on the real records.",
          "7 C18", ""),
+ "C19": ("Coq proof (combine = columns of the Cartesian product for every number of ports and all lengths; selector = filter of aligned tuples; splitter conserves the normalised bytes and bounds part length; concatenation) + T2 of the exported combine + T3 with recorder components downstream of every bundled component",
+         "Theorems for all inputs about the executable component models; the models are run against the exported combine functions and against the real components in workflows (all stream lengths 0..buffer+2, all predicate patterns, exact multiples / CRLF / unterminated files), with independent monitors of the property statement (product, conservation, bounds).",
+         "7 C19", ""),
+ "C20": ("Coq proof (flatten lists every ID of the tree exactly once; the report is a permutation of it sorted by start time with ties by ID; refuted pre-repair ordering) + T2 through the real scipipe binary on generated trees + executing generated Bash scripts of real runs",
+         "Theorems over all record trees (any depth, fan-in, sharing); the extracted model's order is compared with the (process, ID) sequence parsed from audit2html / audit2tex / audit2bash output of the real CLI on generated trees with ties and zero times, and generated scripts of real workflows are executed and must re-create the file byte-identically.",
+         "7 C20", ""),
 }
 
 def main():
